@@ -141,6 +141,7 @@ func init() {
 	add("body", c10P21, "a.png", "data", c10HKeep)
 	add("body", c10J42, "b.jpeg", "data", c10WOnly)
 	add("body", c10J42, "photo.JPG", "file", c10HKeep) // AddImageFromFile: format and pixel size detected by the library
+	add("body", c10P12, "a.png", "file", c10None)      // the path the cell and template entries use, with other bytes
 	add("body", c10G33, "a.png", "data", c10WH)
 	c10Ops[len(c10Ops)-1].float = true
 	c10Ops[len(c10Ops)-1].name = "body-floating(gif 3x3, name \"a.png\", data, " + c10WH.String() + ", float left)"
@@ -359,16 +360,21 @@ func c10ImageConfig(s c10Size, float bool) *document.ImageConfig {
 }
 
 // withFile writes data under the given name into a private directory for the duration of f.
+// The directory is the same for every call of the process: a caller who writes its pictures to one place uses the
+// same path for different files over time (two alphabet entries share a file name but not the bytes).
 func c10WithFile(name string, data []byte, f func(path string) error) error {
-	dir, err := os.MkdirTemp("", "vcheck-c10-")
-	if err != nil {
+	dir := filepath.Join(os.TempDir(), fmt.Sprintf("vcheck-c10-%d", os.Getpid()))
+	if err := os.MkdirAll(dir, 0o755); err != nil {
 		panic("harness: " + err.Error())
 	}
-	defer os.RemoveAll(dir)
 	path := filepath.Join(dir, name)
 	if err := os.WriteFile(path, data, 0o644); err != nil {
 		panic("harness: " + err.Error())
 	}
+	defer func() {
+		os.Remove(path)
+		os.Remove(dir) // succeeds when empty
+	}()
 	return f(path)
 }
 
